@@ -95,13 +95,16 @@ Fixpoint iread (inp : input) (pos : N) (n : nat) : bytes :=
   match n with O => [] | S n' => iget inp pos :: iread inp (pos + 1) n' end.
 
 (* executable inputs: extents (offset, bytes) over a zero background *)
-Fixpoint ext_get (exts : list (N * bytes)) (off : N) : byte :=
+Fixpoint ext_get (exts : list (N * N * bytes)) (off : N) : byte :=
   match exts with
   | [] => x00
-  | (o, l) :: r =>
-      if (o <=? off) && (off <? o + N.of_nat (length l)) then nth (N.to_nat (off - o)) l x00 else ext_get r off
+  | (o, e, l) :: r =>
+      if (o <=? off) && (off <? e) then nth (N.to_nat (off - o)) l x00 else ext_get r off
   end.
-Definition input_of_exts (len : N) (exts : list (N * bytes)) : input := {| ilen := len; iget := ext_get exts |}.
+(* extents are (offset, bytes); the end offsets are computed once *)
+Definition input_of_exts (len : N) (exts : list (N * bytes)) : input :=
+  let exts' := map (fun ol : N * bytes => (fst ol, fst ol + N.of_nat (length (snd ol)), snd ol)) exts in
+  {| ilen := len; iget := ext_get exts' |}.
 Definition input_of_bytes (l : bytes) : input := input_of_exts (N.of_nat (length l)) [(0, l)].
 
 (* The ideal cursor over an input.
